@@ -17,4 +17,12 @@ SEEDS = [
   S('reference-key-by-given', 'C08.complete-keys', C, "    return ('/'.join(self._scopes), self._configurable.selector)", "    return ('/'.join(self._scopes), self._selector)"),
   S('lookup-returns-given', 'C08.complete-keys', C, "    if selector:\n      selector = selector.selector\n", "    if selector:\n      selector = fn_or_cls_or_selector.split('/')[-1]\n"),
   S('registry-exact-only', 'C08.funnel', C, "      return _REGISTRY.get_match(selector)", "      return _REGISTRY.get(selector)"),
+  # the `next(<values of the matches>, default)` form of get_match is right only behind the ambiguity guard (it is accepted there:
+  # refactors/C08re); without the guard it returns the first of several matches
+  S('first-or-default-without-ambiguity-guard', 'C08.exact-first', M, "    if not matching_selectors:\n      return default\n    if len(matching_selectors) > 1:\n      err_str = \"Ambiguous selector '{}', matches {}.\"\n      raise KeyError(err_str.format(partial_selector, matching_selectors))\n    return self._selector_map[matching_selectors[0]]\n", "    return next(map(self._selector_map.__getitem__, matching_selectors), default)\n"),
+  S('first-or-default-generator-without-guard', 'C08.exact-first', M, "    if not matching_selectors:\n      return default\n    if len(matching_selectors) > 1:\n      err_str = \"Ambiguous selector '{}', matches {}.\"\n      raise KeyError(err_str.format(partial_selector, matching_selectors))\n    return self._selector_map[matching_selectors[0]]\n", "    if len(matching_selectors) > 2:\n      raise KeyError(partial_selector)\n    return next((self._selector_map[s] for s in matching_selectors), default)\n"),
+  # a key property spelled `property(operator.attrgetter(...))` is read like the method it replaces
+  dict(name='attrgetter-key-by-given-selector', rule='C08.complete-keys', note='', edits=[
+      (C, "import logging\n", "import logging\nimport operator\n"),
+      (C, "  @property\n  def config_key(self):\n    return self.scope, self.complete_selector\n", "  config_key = property(operator.attrgetter('scope', 'given_selector'))\n")]),
 ]
